@@ -66,18 +66,25 @@ theorem renders_congr (s : Sem E V T) (f : String) {D0 D1 : V} (hs : SameBut s f
     simp only [renders] at h ⊢
     rw [← hs l sc ho.1]
     exact ⟨h.1, rendersItems_mono (fun a x nch hp => rendersL_congr s f hs body nch (sc ++ [a, x]) ho.2 hp) _ items h.2⟩
-  | .text _, .elem .., _, _, h | .text _, .virt .., _, _, h | .text _, .ifn .., _, _, h | .text _, .forn .., _, _, h
-  | .text _, .fornK .., _, _, h => by simp [renders] at h
-  | .elem .., .text .., _, _, h | .elem .., .virt .., _, _, h | .elem .., .ifn .., _, _, h | .elem .., .forn .., _, _, h
-  | .elem .., .fornK .., _, _, h => by simp [renders] at h
-  | .block _ _, .text .., _, _, h | .block _ _, .elem .., _, _, h | .block _ _, .ifn .., _, _, h | .block _ _, .forn .., _, _, h
-  | .block _ _, .fornK .., _, _, h => by simp [renders] at h
-  | .cond _, .text .., _, _, h | .cond _, .elem .., _, _, h | .cond _, .virt .., _, _, h | .cond _, .forn .., _, _, h
-  | .cond _, .fornK .., _, _, h => by simp [renders] at h
-  | .loop .., .text .., _, _, h | .loop .., .elem .., _, _, h | .loop .., .virt .., _, _, h | .loop .., .ifn .., _, _, h
-  | .loop .., .fornK .., _, _, h => by simp [renders] at h
-  | .loopK .., .text .., _, _, h | .loopK .., .elem .., _, _, h | .loopK .., .virt .., _, _, h | .loopK .., .ifn .., _, _, h
-  | .loopK .., .forn .., _, _, h => by simp [renders] at h
+  | .tref is fields cases, .tnode _ k nch, sc, ho, h => by
+    simp only [occurs, Bool.or_eq_false_iff] at ho
+    simp only [renders] at h ⊢
+    rw [← hs is sc ho.1, ← evalAttrs_congr s f hs sc fields ho.2]
+    exact h
+  | .text _, .elem .., _, _, h | .text _, .virt .., _, _, h | .text _, .ifn .., _, _, h
+  | .text _, .forn .., _, _, h | .text _, .fornK .., _, _, h | .text _, .tnode .., _, _, h => by simp [renders] at h
+  | .elem .., .text .., _, _, h | .elem .., .virt .., _, _, h | .elem .., .ifn .., _, _, h
+  | .elem .., .forn .., _, _, h | .elem .., .fornK .., _, _, h | .elem .., .tnode .., _, _, h => by simp [renders] at h
+  | .block _ _, .text .., _, _, h | .block _ _, .elem .., _, _, h | .block _ _, .ifn .., _, _, h
+  | .block _ _, .forn .., _, _, h | .block _ _, .fornK .., _, _, h | .block _ _, .tnode .., _, _, h => by simp [renders] at h
+  | .cond _, .text .., _, _, h | .cond _, .elem .., _, _, h | .cond _, .virt .., _, _, h
+  | .cond _, .forn .., _, _, h | .cond _, .fornK .., _, _, h | .cond _, .tnode .., _, _, h => by simp [renders] at h
+  | .loop .., .text .., _, _, h | .loop .., .elem .., _, _, h | .loop .., .virt .., _, _, h
+  | .loop .., .ifn .., _, _, h | .loop .., .fornK .., _, _, h | .loop .., .tnode .., _, _, h => by simp [renders] at h
+  | .loopK .., .text .., _, _, h | .loopK .., .elem .., _, _, h | .loopK .., .virt .., _, _, h
+  | .loopK .., .ifn .., _, _, h | .loopK .., .forn .., _, _, h | .loopK .., .tnode .., _, _, h => by simp [renders] at h
+  | .tref .., .text .., _, _, h | .tref .., .elem .., _, _, h | .tref .., .virt .., _, _, h
+  | .tref .., .ifn .., _, _, h | .tref .., .forn .., _, _, h | .tref .., .fornK .., _, _, h => by simp [renders] at h
 theorem rendersL_congr (s : Sem E V T) (f : String) {D0 D1 : V} (hs : SameBut s f D0 D1) :
     ∀ (ts : Tpls E) (ns : Nodes V) (sc : List V), occursL s f ts = false → rendersL s D0 sc ts ns → rendersL s D1 sc ts ns
   | .nil, .nil, _, _, _ => trivial
@@ -149,18 +156,23 @@ theorem bm_renders (s : Sem E V T) (f : String) {D0 D1 : V} (hs : SameBut s f D0
   | .loopK l key body, .fornK b raw items, sc, hd, h => by
     simp only [bmUpdate]
     exact renders_congr s f hs (.loopK l key body) _ sc (by simpa [dynOccurs, occurs] using hd) h
-  | .text _, .elem .., _, _, h | .text _, .virt .., _, _, h | .text _, .ifn .., _, _, h | .text _, .forn .., _, _, h
-  | .text _, .fornK .., _, _, h => by simp [renders] at h
-  | .elem .., .text .., _, _, h | .elem .., .virt .., _, _, h | .elem .., .ifn .., _, _, h | .elem .., .forn .., _, _, h
-  | .elem .., .fornK .., _, _, h => by simp [renders] at h
-  | .block _ _, .text .., _, _, h | .block _ _, .elem .., _, _, h | .block _ _, .ifn .., _, _, h | .block _ _, .forn .., _, _, h
-  | .block _ _, .fornK .., _, _, h => by simp [renders] at h
-  | .cond _, .text .., _, _, h | .cond _, .elem .., _, _, h | .cond _, .virt .., _, _, h | .cond _, .forn .., _, _, h
-  | .cond _, .fornK .., _, _, h => by simp [renders] at h
-  | .loop .., .text .., _, _, h | .loop .., .elem .., _, _, h | .loop .., .virt .., _, _, h | .loop .., .ifn .., _, _, h
-  | .loop .., .fornK .., _, _, h => by simp [renders] at h
-  | .loopK .., .text .., _, _, h | .loopK .., .elem .., _, _, h | .loopK .., .virt .., _, _, h | .loopK .., .ifn .., _, _, h
-  | .loopK .., .forn .., _, _, h => by simp [renders] at h
+  | .tref is fields cases, .tnode b k och, sc, hd, h => by
+    simp only [bmUpdate]
+    exact renders_congr s f hs (.tref is fields cases) _ sc (by simpa [dynOccurs, occurs] using hd) h
+  | .text _, .elem .., _, _, h | .text _, .virt .., _, _, h | .text _, .ifn .., _, _, h
+  | .text _, .forn .., _, _, h | .text _, .fornK .., _, _, h | .text _, .tnode .., _, _, h => by simp [renders] at h
+  | .elem .., .text .., _, _, h | .elem .., .virt .., _, _, h | .elem .., .ifn .., _, _, h
+  | .elem .., .forn .., _, _, h | .elem .., .fornK .., _, _, h | .elem .., .tnode .., _, _, h => by simp [renders] at h
+  | .block _ _, .text .., _, _, h | .block _ _, .elem .., _, _, h | .block _ _, .ifn .., _, _, h
+  | .block _ _, .forn .., _, _, h | .block _ _, .fornK .., _, _, h | .block _ _, .tnode .., _, _, h => by simp [renders] at h
+  | .cond _, .text .., _, _, h | .cond _, .elem .., _, _, h | .cond _, .virt .., _, _, h
+  | .cond _, .forn .., _, _, h | .cond _, .fornK .., _, _, h | .cond _, .tnode .., _, _, h => by simp [renders] at h
+  | .loop .., .text .., _, _, h | .loop .., .elem .., _, _, h | .loop .., .virt .., _, _, h
+  | .loop .., .ifn .., _, _, h | .loop .., .fornK .., _, _, h | .loop .., .tnode .., _, _, h => by simp [renders] at h
+  | .loopK .., .text .., _, _, h | .loopK .., .elem .., _, _, h | .loopK .., .virt .., _, _, h
+  | .loopK .., .ifn .., _, _, h | .loopK .., .forn .., _, _, h | .loopK .., .tnode .., _, _, h => by simp [renders] at h
+  | .tref .., .text .., _, _, h | .tref .., .elem .., _, _, h | .tref .., .virt .., _, _, h
+  | .tref .., .ifn .., _, _, h | .tref .., .forn .., _, _, h | .tref .., .fornK .., _, _, h => by simp [renders] at h
 theorem bm_rendersL (s : Sem E V T) (f : String) {D0 D1 : V} (hs : SameBut s f D0 D1) :
     ∀ (ts : Tpls E) (ns : Nodes V) (sc : List V), dynOccursL s f ts = false → rendersL s D0 sc ts ns →
       rendersL s D1 sc ts (bmUpdateL s D1 sc f ts ns)
